@@ -15,7 +15,7 @@ class World:
     def __init__(self, root, tag, compiler, rng, sc_env=None, direct_mode=True):
         self.root = root; self.rng = rng
         shutil.rmtree(root, ignore_errors=True); os.makedirs(root)
-        self.w = os.path.join(root, 'w'); os.makedirs(self.w); os.makedirs(os.path.join(self.w, 'inc2')); os.makedirs(os.path.join(self.w, 'inc1'))
+        self.w = os.path.join(root, 'w'); os.makedirs(self.w); os.makedirs(os.path.join(self.w, 'inc2')); os.makedirs(os.path.join(self.w, 'inc1')); os.makedirs(os.path.join(self.w, 'o1')); os.makedirs(os.path.join(self.w, 'o2'))
         self.log = os.path.join(root, 'cc.log')
         self.cc = os.path.join(root, 'bin', os.path.basename(compiler)); os.makedirs(os.path.dirname(self.cc))
         wrapper(self.cc, compiler, self.log)
@@ -37,22 +37,25 @@ class World:
     def fingerprint(self):
         inc2 = '-Iinc2' in self.flags
         return json.dumps([self.flags, self.lang, self.files['main.c'], self.files['h1.h'], self.files['inc2/h2.h'] if inc2 else self.files['inc1/h2.h'],
-                           self.env.get('SCCACHE_C_CUSTOM_CACHE_BUSTER')])
+                           self.env.get('SCCACHE_C_CUSTOM_CACHE_BUSTER'), self.out if '-gsplit-dwarf' in self.flags else None])
     def request(self, note, expect_cacheable=True, evicted=False):
         argv = self.argv(); out = os.path.join(self.w, self.out)
         env = dict(self.env)
         before = counts(self.sc.stats() or {}) if True else {}
         nlog = loglines(self.log)
-        try: os.remove(out)
-        except OSError: pass
+        for p_ in (out, out[:-2] + '.dwo'):
+            try: os.remove(p_)
+            except OSError: pass
         r = self.sc.compile(argv, self.w, env=env)
-        got = (r.returncode, r.stdout, r.stderr, file_state(out))
+        dwo = out[:-2] + '.dwo'
+        got = (r.returncode, r.stdout, r.stderr, file_state(out), file_state(dwo) and file_state(dwo)[0])
         ran = loglines(self.log) - nlog
         after = counts(self.sc.stats() or {})
-        try: os.remove(out)
-        except OSError: pass
+        for p_ in (out, dwo):
+            try: os.remove(p_)
+            except OSError: pass
         d = subprocess.run(argv, cwd=self.w, env=dict(os.environ, **env), capture_output=True)
-        want = (d.returncode, d.stdout, d.stderr, file_state(out))
+        want = (d.returncode, d.stdout, d.stderr, file_state(out), file_state(dwo) and file_state(dwo)[0])
         dh = after.get('cache_hits', 0) - before.get('cache_hits', 0); dm = after.get('cache_misses', 0) - before.get('cache_misses', 0)
         cls = 'hit' if dh else ('miss' if dm else 'other')
         self.hits += dh; self.misses += dm
@@ -60,7 +63,7 @@ class World:
         line = f'{note}: {" ".join(argv[1:])} env={env} -> rc={got[0]} {cls} ran_compiler={ran}'
         self.trace.append(line)
         if got != want:
-            what = [n for n, a, b in zip(('exit status', 'stdout', 'stderr', 'output file'), got, want) if a != b]
+            what = [n for n, a, b in zip(('exit status', 'stdout', 'stderr', 'output file', '.dwo file'), got, want) if a != b]
             only_mode = what == ['output file'] and got[3] and want[3] and got[3][0] == want[3][0]
             if only_mode and got[3][1] == want[3][1] & ~0o027:
                 # bytes equal, permission bits = direct ones masked by the daemonized server's umask 027 (finding F-C01-d)
@@ -80,7 +83,7 @@ class World:
 
 def mutate(w, rng):
     """one random edit of the world; returns a note"""
-    k = rng.randrange(16)
+    k = rng.randrange(18)
     if k == 0: w.write('main.c', SRC.format(fn='f', k=rng.randrange(1, 9))); return 'edit source (same size)'
     if k == 1: w.write('main.c', SRC.format(fn='f', k=rng.randrange(10, 999)) + '/* pad */\n' * rng.randrange(3)); return 'edit source (size change)'
     if k == 2: w.write('h1.h', '#define A %d\n' % rng.randrange(1, 9)); return 'edit header h1 (same size)'
@@ -90,12 +93,14 @@ def mutate(w, rng):
     if k == 6: w.flags = [f for f in w.flags if not f.startswith('-O')] + [rng.choice(['-O0', '-O1', '-O2'])]; return 'change optimisation'
     if k == 7: w.flags = [f for f in w.flags if not f.startswith('-Iinc')] + ['-Iinc1' if '-Iinc2' in w.flags else '-Iinc2']; return 'switch include path'
     if k == 8: w.lang = rng.choice([None, 'c', 'c++']); return 'change language'
-    if k == 9: w.out = rng.choice(['out.o', 'other.o', 'o3.o']); return 'change output path'
+    if k == 9: w.out = rng.choice(['out.o', 'other.o', 'o1/out.o', 'o2/out.o']); return 'change output path'
     if k == 10: w.env = dict(w.env, UNRELATED_VAR=str(rng.randrange(99))); return 'change unrelated env'
     if k == 11: w.env = dict(w.env, SCCACHE_C_CUSTOM_CACHE_BUSTER=str(rng.randrange(3))); return 'change cache-buster env'
     if k == 12: w.write('main.c', 'int f(int x) { return }\n'); return 'break the source'
     if k == 13: w.write('h1.h', '#define A 3\n#error boom\n'); return 'break a header (#error)'
     if k == 14: w.restart(); return 'restart'
+    if k == 15: w.flags = ([f for f in w.flags if f not in ('-g', '-gsplit-dwarf')] if '-gsplit-dwarf' in w.flags else w.flags + ['-g', '-gsplit-dwarf']); return 'toggle -g -gsplit-dwarf'
+    if k == 16: w.out = {'o1/out.o': 'o2/out.o', 'o2/out.o': 'o1/out.o'}.get(w.out, 'o1/out.o'); return 'same output name in another directory'
     return 'no change'
 
 def run_histories(root, tag, compiler, seed, n_hist, n_req, direct_mode=True, sc_env=None):
@@ -303,3 +308,34 @@ def run_direct_mode_histories(root, tag, compiler, seed, n_hist, n_req):
         finally:
             sc.stop(); shutil.rmtree(d, ignore_errors=True)
     return {'requests': reqs, 'hits': hits, 'options_on': optcount, 'fails': fails, 'samples': samples}
+
+# ------------------------------------------------------------------------------------------------ scripted corpus histories (run first)
+def _set(attr, val):
+    def f(w): setattr(w, attr, val)
+    return f
+def _flags(add=(), remove=()):
+    def f(w): w.flags = [x for x in w.flags if x not in remove] + [x for x in add if x not in w.flags]
+    return f
+CORPUS = {
+    # the object of a -gsplit-dwarf compile names its .dwo companion: the same file name in another directory must not be served from the first
+    'split_dwarf_two_output_dirs': [('enable -g -gsplit-dwarf, output o1/out.o', [_flags(add=('-g', '-gsplit-dwarf')), _set('out', 'o1/out.o')]), ('same name in o2', [_set('out', 'o2/out.o')]),
+                                    ('back to o1', [_set('out', 'o1/out.o')]), ('plain name', [_set('out', 'out.o')])],
+    'language_then_back': [('as C++', [_set('lang', 'c++')]), ('as C', [_set('lang', 'c')]), ('as C++ again', [_set('lang', 'c++')])],
+    'define_then_back': [('-DX=1', [_flags(add=('-DX=1',))]), ('-DX=2', [_flags(add=('-DX=2',), remove=('-DX=1',))]), ('-DX=1 again', [_flags(add=('-DX=1',), remove=('-DX=2',))])],
+}
+
+def run_corpus(root, tag, compiler, direct_mode=True):
+    fails = []; reqs = 0; samples = []
+    for name, script in CORPUS.items():
+        w = World(os.path.join(root, 'corpus_' + name), f'{tag}{name}', compiler, random.Random(0), direct_mode=direct_mode)
+        w.sc.start()
+        try:
+            w.request(f'corpus {name}: first')
+            for note, actions in script:
+                for a in actions: a(w)
+                w.request(note); reqs += 1
+            fails += [dict(f, detail=f'corpus history {name}: ' + f['detail']) for f in w.fails if f['kind'] != 'output_mode_masked_by_server_umask'][:2]
+            samples.append(' ; '.join(w.trace[:3]))
+        finally:
+            w.sc.stop(); shutil.rmtree(w.root, ignore_errors=True)
+    return {'requests': reqs, 'corpus_histories': len(CORPUS), 'fails': fails, 'samples': samples[:1]}
